@@ -48,7 +48,10 @@ func (p *Point) UnmarshalCBOR(data []byte) error {
 	if _, err := cbor.Decode(data, &tmp); err != nil {
 		return err
 	}
-	if len(tmp) == 2 {
+	switch len(tmp) {
+	case 0:
+		// Origin point
+	case 2:
 		slot, ok := tmp[0].(uint64)
 		if !ok {
 			return fmt.Errorf("Point slot must be uint64, got %T", tmp[0])
@@ -59,6 +62,11 @@ func (p *Point) UnmarshalCBOR(data []byte) error {
 		}
 		p.Slot = slot
 		p.Hash = hash
+	default:
+		return fmt.Errorf(
+			"Point must be an empty list or a slot and hash pair, got %d items",
+			len(tmp),
+		)
 	}
 	return nil
 }
